@@ -225,8 +225,14 @@ pub fn set_skip_fast_hook(on: bool) {
 pub fn minimise(prop: &str, oracle: &str, case: &Case, budget: usize) -> (Case, usize) {
     let mut best = case.clone();
     let mut used = 0usize;
+    // bounded by count and by wall-clock: a livelock replay (20 000 events per
+    // re-execution) must not hold the check up for half an hour
+    let t0 = Instant::now();
     let try_case = |cand: &Case, used: &mut usize| -> bool {
         *used += 1;
+        if t0.elapsed() > std::time::Duration::from_secs(90) {
+            *used = (*used).max(budget);
+        }
         fails_same(prop, oracle, cand).is_some()
     };
     let mut progress = true;
